@@ -476,9 +476,17 @@ pub fn mutate(w: &Walk, seed_img: &[u8], opn: usize, r: &mut Rng, fc: &FastCrc) 
         }
         "xml-length-huge" => {
             let mut log = w.log.clone();
-            let v: u64 = *r.pick(&[10 * 1024 * 1024u64, 10 * 1024 * 1024 - 1, 10 * 1024 * 1024 + 1, 1 << 30, u64::MAX, (w.xml_len as u64) + 1, (w.xml_len as u64).saturating_sub(1), (log.len() - w.xml_log_off) as u64, (log.len() - w.xml_log_off) as u64 + 1]);
+            let v: u64 = *r.pick(&[10 * 1024 * 1024u64, 10 * 1024 * 1024 - 1, 10 * 1024 * 1024 + 1, 1 << 30, 1 << 27, 1 << 28, 3 << 28, u64::MAX, (w.xml_len as u64) + 1, (w.xml_len as u64).saturating_sub(1), (log.len() - w.xml_log_off) as u64, (log.len() - w.xml_log_off) as u64 + 1]);
             log[32..40].copy_from_slice(&v.to_le_bytes());
-            Some(Mutant { img: w.with_log(&log, fc), op, note: format!("xml_length <- {}", v) })
+            let mut note = format!("xml_length <- {}", v);
+            if r.bool() {
+                // the declared file length is raised along with it: the two header fields are consistent with each
+                // other, only the device is not that long
+                let pl = *r.pick(&[v, v.saturating_add(4096), v.saturating_mul(2), u64::MAX, (v / 1024).saturating_add(8).saturating_mul(1024)]);
+                log[16..24].copy_from_slice(&pl.to_le_bytes());
+                note = format!("{}, phys_length <- {}", note, pl);
+            }
+            Some(Mutant { img: w.with_log(&log, fc), op, note })
         }
         "xml-offset-into-crc" => {
             let mut log = w.log.clone();
